@@ -765,12 +765,26 @@ structure Names where
   nameKey : Bytes
   aliasSym : Bytes
   aliasKey : Bytes
+  /-- the `FieldType` byte the entity strategy stores `alias` / `code` / `colour` / `label` with
+      (`SetString` 5, `SetInt64` 3, `SetInt32` 2, `SetFloat64` 4, …): the symbol's node type.  A field's
+      value in the model is its *raw stored bytes* (what `symbol.Eval` returns: the stored value without
+      the type byte); every unique index is keyed by exactly these bytes (`uniqueIndex.ProcessAfterUpdate`
+      puts, `ProcessBeforeDelete` deletes under `Eval`'s bytes — the index code never looks at the type),
+      so the four unique indexes over these fields are indexes over symbols of any scalar type. -/
+  aliasTy : UInt8 := 5
+  codeTy : UInt8 := 5
+  colourTy : UInt8 := 5
+  labelTy : UInt8 := 5
   deriving Repr
 
 /-- symbol = key = `name` / `alias` -/
-def Names.std : Names := ⟨bName, bName, bAlias, bAlias⟩
+def Names.std : Names := { nameSym := bName, nameKey := bName, aliasSym := bAlias, aliasKey := bAlias }
 /-- symbols `title` / `nick`, keys `nm` / `aka` -/
-def Names.alt : Names := ⟨[116, 105, 116, 108, 101], [110, 109], [110, 105, 99, 107], [97, 107, 97]⟩
+def Names.alt : Names :=
+  { nameSym := [116, 105, 116, 108, 101], nameKey := [110, 109], aliasSym := [110, 105, 99, 107], aliasKey := [97, 107, 97] }
+/-- the typed variant: `alias` an int64 symbol, `code` int32, `colour` float64, `label` int32 — unique
+    indexes over non-string symbols (keys = the little-endian encodings, 8 / 4 / 8 / 4 bytes) -/
+def Names.typedV : Names := { Names.std with aliasTy := 3, codeTy := 2, colourTy := 4, labelTy := 2 }
 
 /-- every bucket / field name of the schema -/
 def reserved (nm : Names) : List Bytes :=
@@ -785,6 +799,19 @@ def pathB (id : Id) : List Bytes := [bU, bOwners, id]
 def optField : Option Bytes → Bytes
   | none => nilField
   | some v => typed v
+
+/-- `PrependFieldType(t, v)`: the stored form of a field of type `t` with raw bytes `v` -/
+def tagged (t : UInt8) (v : Bytes) : Bytes := t :: v
+
+/-- a nullable field of type `t` -/
+def optFieldT (t : UInt8) : Option Bytes → Bytes
+  | none => nilField
+  | some v => tagged t v
+
+/-- little-endian fixed-width form of a short byte string (`SetInt64` / `SetInt32` / `SetFloat64` of the
+    number whose little-endian digits are `v`): how the typed schema variant turns a case's value into
+    the raw stored bytes -/
+def padTo (n : Nat) (v : Bytes) : Bytes := v ++ List.replicate (n - v.length) 0
 
 /-- `Int32ToBytes`: type byte 2 and four little-endian bytes -/
 def encCount (n : Nat) : Bytes :=
@@ -805,7 +832,7 @@ def optBucket {α : Type} (f : α → List Line) : Option α → List Line
 def renderA (nm : Names) (s : State) (p : Id × EntA) : List Line :=
   [ .bucket (pathA p.1),
     .kv (pathA p.1) nm.nameKey (typed p.2.name),
-    .kv (pathA p.1) nm.aliasKey (optField p.2.alias),
+    .kv (pathA p.1) nm.aliasKey (optFieldT nm.aliasTy p.2.alias),
     .kv (pathA p.1) bOwner (optField p.2.owner),
     .kv (pathA p.1) bDep (optField p.2.dep),
     .kv (pathA p.1) bBoss (optField p.2.boss),
@@ -817,15 +844,15 @@ def renderA (nm : Names) (s : State) (p : Id × EntA) : List Line :=
   optBucket (listBucket (pathA p.1 ++ [bMentors])) (s.mt.fwd.lookup p.1) ++
   optBucket (listBucket (pathA p.1 ++ [bMentees])) (s.mt.bwd.lookup p.1) ++
   (match p.2.code with
-   | some c => [ .bucket (pathA p.1 ++ [bExt1]), .kv (pathA p.1 ++ [bExt1]) bCode (typed c) ] ++
+   | some c => [ .bucket (pathA p.1 ++ [bExt1]), .kv (pathA p.1 ++ [bExt1]) bCode (tagged nm.codeTy c) ] ++
                optBucket (listBucket (pathA p.1 ++ [bExt1, bPals])) (s.p.fwd.lookup p.1)
    | none => []) ++
   (match p.2.colour with
-   | some c => [ .bucket (pathA p.1 ++ [bExt2]), .kv (pathA p.1 ++ [bExt2]) bColour (typed c) ]
+   | some c => [ .bucket (pathA p.1 ++ [bExt2]), .kv (pathA p.1 ++ [bExt2]) bColour (tagged nm.colourTy c) ]
    | none => [])
 
-def renderB (s : State) (p : Id × EntB) : List Line :=
-  [ .bucket (pathB p.1), .kv (pathB p.1) bLabel (optField p.2.label) ] ++
+def renderB (nm : Names) (s : State) (p : Id × EntB) : List Line :=
+  [ .bucket (pathB p.1), .kv (pathB p.1) bLabel (optFieldT nm.labelTy p.2.label) ] ++
   optBucket (listBucket (pathB p.1 ++ [bMembers])) (s.g.bwd.lookup p.1) ++
   optBucket (listBucket (pathB p.1 ++ [bPalsOf])) (s.p.bwd.lookup p.1) ++
   optBucket (countBucket (pathB p.1 ++ [bRcA])) (s.rc.bwd.lookup p.1) ++
@@ -845,7 +872,7 @@ def Render (nm : Names) (s : State) : List Line :=
   (if s.hasA then [Line.bucket [bU, bThings]] else []) ++
   (if s.hasB then [Line.bucket [bU, bOwners]] else []) ++
   s.a.entries.flatMap (renderA nm s) ++
-  s.b.entries.flatMap (renderB s) ++
+  s.b.entries.flatMap (renderB nm s) ++
   s.uName.entries.flatMap (renderUnique (idxPathA nm.nameSym)) ++
   s.uAlias.entries.flatMap (renderUnique (idxPathA nm.aliasSym)) ++
   s.uCode.entries.flatMap (renderUnique (idxPathA bCode)) ++
